@@ -1490,7 +1490,7 @@ impl<'a> Sem<'a> {
             let ty = match self.rng.below(12) {
                 0..=2 => Ty::Str,
                 3..=5 => Ty::Bit,
-                6 if self.on("template-arg-types") => Ty::Bits(4),
+                6 if self.on("template-arg-types") => Ty::Bits([4, 4, 1, 2][self.rng.below(4)]),
                 7 if self.on("template-arg-types") => Ty::List(Box::new(Ty::Int)),
                 8 if self.on("template-arg-types") => Ty::List(Box::new(Ty::Str)),
                 // a parameter of class type: its arguments are records, often written as class values
@@ -1614,7 +1614,8 @@ impl<'a> Sem<'a> {
                     let doc = self.doc_comment();
                     let mut ty = FIELD_TYPES[self.rng.below(FIELD_TYPES.len())]();
                     if self.rng.chance(1, 6) {
-                        ty = Ty::Bits(8);
+                        // widths at the edges as well: bits<1> is a type of its own, not `bit`
+                        ty = Ty::Bits([8, 1, 2, 16, 1, 8][self.rng.below(6)]);
                     }
                     // class-typed fields where a def of that class exists to initialise them
                     if self.rng.chance(1, 5) && self.on("class-typed-field") {
